@@ -29,6 +29,9 @@ type c18Case struct {
 	DropMaps    bool     `json:"drop_maps,omitempty"` // decoded message whose Protected maps are nil (only the raw bytes are kept), as in a struct-literal message
 	G           int      `json:"g"`
 	Plan        [][]int  `json:"plan"` // per goroutine: indices into the operation list
+	// Hammer: every goroutine runs its plan 12 times in a row (all start together): the same
+	// operations overlap on the same shared values for as long as possible
+	Hammer bool `json:"hammer,omitempty"`
 }
 
 type c18Op struct {
@@ -162,6 +165,18 @@ func c18Build(c *c18Case) (shared []any, ops []c18Op, err error) {
 				c18Op{"ConstructedCountersignature.Verify", func() string { return errStr(ccs.Verify(cvf, m.parent(false), []byte("bound external data"))) }},
 				c18Op{"ConstructedCountersignature.Verify/no-external", func() string { return errStr(ccs.Verify(cvf, m.parent(true), nil)) }},
 				c18Op{"ConstructedCountersignature.MarshalCBOR", func() string { b, e := ccs.MarshalCBOR(); return hex.EncodeToString(b) + errStr(e) }})
+			if c.Constructed {
+				// attached to the constructed message: its unprotected bucket is encoded from the map on
+				// every MarshalCBOR, countersignature included
+				h := m.headers()
+				if h.Unprotected == nil {
+					h.Unprotected = cose.UnprotectedHeader{}
+				}
+				if _, taken := h.Unprotected[int64(11)]; !taken && h.RawUnprotected == nil {
+					h.Unprotected[int64(11)] = ccs
+					stats.Class("constructed-message-carries-countersignature")
+				}
+			}
 		}
 	}
 	// a COSE_Key (EC2 keys with a short coordinate, or Ed25519)
@@ -292,11 +307,25 @@ func checkC18(c c18Case) error {
 	var wg sync.WaitGroup
 	var mu sync.Mutex
 	var bad string
+	start := make(chan struct{})
+	rounds := 1
+	if c.Hammer {
+		rounds = 12
+		stats.Class("hammer")
+	}
 	for g := 0; g < c.G; g++ {
 		plan := c.Plan[g%len(c.Plan)]
+		if rounds > 1 {
+			rep := make([]int, 0, len(plan)*rounds)
+			for r := 0; r < rounds; r++ {
+				rep = append(rep, plan...)
+			}
+			plan = rep
+		}
 		wg.Add(1)
 		go func() {
 			defer wg.Done()
+			<-start
 			for _, oi := range plan {
 				op := ops[oi%len(ops)]
 				got := op.run()
@@ -310,6 +339,7 @@ func checkC18(c c18Case) error {
 			}
 		}()
 	}
+	close(start)
 	wg.Wait()
 	if bad != "" {
 		return finding("concurrent-result-differs", "%s (goroutines=%d)", bad, c.G)
@@ -406,6 +436,10 @@ func genC18Case(t *rapid.T) c18Case {
 			p[j] = rapid.IntRange(0, 30).Draw(t, "op")
 		}
 		c.Plan = append(c.Plan, p)
+	}
+	c.Hammer = rapid.IntRange(0, 2).Draw(t, "hammer") == 0
+	if c.Hammer && rapid.Bool().Draw(t, "hammer-one-plan") {
+		c.Plan = c.Plan[:1] // everybody does the same
 	}
 	return c
 }
